@@ -45,6 +45,8 @@ def pick_widths(rng, n):
 def pick_ro_opts(rng, items):
     """options for removeOverlap; sometimes omitted keys"""
     o = {}
+    if rng.random() < 0.04:
+        return o
     ns = rng.choice([3, 3, 0, 0.5, 1, 5, 2.5])
     if rng.random() < 0.8:
         o["nodeSpacing"] = ns
@@ -140,6 +142,8 @@ def gen_labels(rng, tier, nmax=None):
 
 def gen_force_opts(rng, labels, span):
     o = {}
+    if rng.random() < 0.05:
+        return o                # every default
     if rng.random() < 0.7:
         o["nodeSpacing"] = rng.choice([3, 0, 0.5, 1, 5, 2.5])
     mn = rng.choice(["omit", "omit", 0, None, -20, 10.5, 30])
